@@ -26,6 +26,7 @@ def run(tier):
     serialize_impls(res, facts)
     set_claim(res, facts)
     payload(res, facts)
+    payload_concrete(res, facts)
     wrap(res, facts)
     writers(res, facts)
     for f in CL.analyse(facts):
@@ -257,6 +258,102 @@ def payload(res, facts):
             res.violate("C14.R3", b["id"], "payload entry transformed at build time", "; ".join(sorted(set(problems)))[:400], file=v.file(), line=b["line"])
     if n_ok == 0:
         res.violate("C14.R3", b["id"], "no successful outcome", "abstract interpretation found no path producing a payload (fail closed)", file=v.file(), line=b["line"])
+
+
+def payload_concrete(res, facts):
+    """C14.R3 on concrete state: build_payload_from_claims interpreted on a builder holding two claims {k1: C1, k2: C2}; serde_json::to_value
+    of a claim yields any JSON value (Null included) or fails; the map handed to wrap_claims must hold exactly k1 and k2 on every path, each
+    with the serialised value of its own claim (Null only when serialisation failed or the value is null) - nothing dropped, added,
+    re-keyed or swapped."""
+    from .. import models_iter as MI
+    b = _fpai.find_body(facts, GB + r"build_payload_from_claims$")
+    if b is None:
+        return
+    v = M.view(facts, b)
+
+    def m_tv(I, st, info, args, depth):
+        x = MD.deref(I, st, args[0])
+        c = x.attrs.get("claim") if isinstance(x, A.Sym) else None
+        if c is None:
+            return None
+        s2 = st.clone()
+        s2.cond.append("to_value(%s) ok" % c)
+        st.cond.append("to_value(%s) fails" % c)
+        return [(s2, "return", A.ok(MD.json_sym("tv(%s)" % c))), (st, "return", A.err(A.Sym("serde_json::Error")))]
+    def record(I_, st_, pairs):
+        ents = {}
+        for kx, vx in pairs:
+            val = MD.deref(I_, st_, vx)
+            if isinstance(val, A.Struct) and val.adt == "serde_json::value::Value":
+                d = "Value::" + str(val.variant)
+            else:
+                d = getattr(val, "name", repr(val))
+            ents.setdefault(str(MD.str_key(I_, st_, kx)[1]), []).append(d)
+        st_.events.append(("wrap_claims_in", ents))
+
+    def m_wc(I_, st_, info, args_, depth):
+        """wrap_claims summarised: what it is handed - a map, or a lazy stream of (key, value) pairs which is drawn to its end here"""
+        wrapped = A.Sym("wrapped", attrs={"adt": "serde_json::value::Value"})
+        m = MD.deref(I_, st_, args_[0])
+        if MI.is_map(m):
+            record(I_, st_, [(e.fields["0"], e.fields["1"]) for e in MI._entries(m)])
+            return [(st_, "return", wrapped)]
+        it = MI.as_iter(I_, st_, args_[0])
+        if it is None:
+            st_.events.append(("wrap_claims_in", None))
+            return [(st_, "return", wrapped)]
+        out = []
+        for s2, kind, acc in MI.drain(I_, st_, it, depth, lambda s, a, item: [(s, "cont", a + [item])], []):
+            if kind != "done":
+                out.append((s2, kind, acc))
+                continue
+            pairs = []
+            for x in acc:
+                t = MD.deref(I_, s2, x)
+                if isinstance(t, A.Struct) and {"0", "1"} <= set(t.fields):
+                    pairs.append((t.fields["0"], t.fields["1"]))
+            record(I_, s2, pairs)
+            out.append((s2, "return", wrapped))
+        return out
+    I = A.Interp(facts, [(re.compile(r"^serde_json::value::to_value$"), m_tv), (re.compile(r"::wrap_claims$"), m_wc)] + MD.MODELS)
+    I.concrete_maps = True
+    st = A.State()
+    me_v = A.Struct("crate::generic::builders::generic_builder::GenericBuilder", None, {
+        "version": A.UNIT, "purpose": A.UNIT, "claims": MI.mapv("claims", [(A.StrV("k1"), A.Sym("C1", attrs={"claim": "C1"})), (A.StrV("k2"), A.Sym("C2", attrs={"claim": "C2"}))]),
+        "footer": A.Sym("self.footer", attrs={"adt": "core::option::Option"}), "implicit_assertion": A.Sym("self.implicit_assertion", attrs={"adt": "core::option::Option"})})
+    me = st.new_cell(me_v)
+    outs = I.run(b, [A.Ptr(me)], st)
+    if not outs or any(o.kind not in ("return", "panic") or o.state.unmodelled or _fpai.undecided(o) for o in outs):
+        return    # undecided: the symbolic pipeline rule above stands alone
+    probs = []
+    n = 0
+    for o in outs:
+        if o.kind != "return":
+            continue
+        cond = " & ".join(o.state.cond)
+        ins = [e[1] for e in o.state.events if e[0] == "wrap_claims_in"]
+        if len(ins) != 1 or ins[0] is None:
+            r = I.resolve(o.state, o.value)
+            if isinstance(r, A.Struct) and r.variant == "Err" and not ins:
+                continue
+            probs.append("wrap_claims is applied %d times to a concrete claim map when [%s]" % (len(ins), cond[-160:]))
+            continue
+        n += 1
+        got = ins[0]
+        for k, c in (("k1", "C1"), ("k2", "C2")):
+            failed = ("to_value(%s) fails" % c) in o.state.cond
+            want = ["Value::Null"] if failed else ["tv(%s)" % c]
+            if got.get(k) != want:
+                probs.append("claim %s reaches the payload as %s instead of %s when [%s]" % (k, got.get(k, "nothing (entry dropped)"), want[0], cond[-200:]))
+        extra = sorted(set(got) - {"k1", "k2"})
+        if extra:
+            probs.append("members %s appear in the payload without a stored claim" % extra)
+    ok = not probs and n > 0
+    res.oblige(ok)
+    if ok:
+        res.inst("C14.R3", "build_payload_from_claims on a two-claim builder: wrap_claims receives exactly {k1: to_value(C1), k2: to_value(C2)} (Null only when serialisation fails) on %d paths" % n)
+    else:
+        res.violate("C14.R3", b["id"], "payload entry dropped / transformed at build time", "; ".join(sorted(set(probs)))[:500] or "no path hands a claim map to wrap_claims", file=v.file(), line=b["line"])
 
 
 def wrap(res, facts):
